@@ -4,6 +4,7 @@ import XsdataModel.Samples.Infer
 import XsdataModel.Conv.TblCEnv
 import XsdataModel.Samples.Mapper
 import XsdataModel.Samples.Reduce
+import XsdataModel.Samples.Fields
 open Lean Proto Py Xs.Samples
 
 namespace OpsSamples
@@ -162,6 +163,17 @@ def run (op : String) (a : Json) : Option (Except String Json) :=
       match docs.mapM (fun d => mapDict e d name) with
       | some css => pure <| optClasses (reduceClasses css.flatten)
       | none => pure <| err "IndexError"
+  | "smp.fields" => some do
+      let e ← dEnv a
+      let docs ← (← asArr (fld a "trees")).mapM dEl
+      let jField (f : Field) : Json :=
+        jObj [("tag", jStr f.tag.str), ("name", jStr f.name), ("list", jBool f.isList), ("default", jBool f.hasDefault),
+              ("nillable", jBool f.nillable), ("min", jOpt jNat f.minOccurs),
+              ("max", jOpt jNat f.maxOccurs), ("seq", jOpt jNat f.sequence)]
+      pure <| match reduceClasses (docs.flatMap (mapElement e)) with
+        | some cs => ok (jList (fun (c : Cls) =>
+            jObj [("qname", jStr c.qname), ("fields", jOpt (jList jField) (classFields cs c))]) cs)
+        | none => err "IndexError"
   | "smp.e2e_xml" => some do
       let e ← dEnv a
       let docs ← (← asArr (fld a "trees")).mapM dEl
